@@ -95,6 +95,8 @@ func runC07(c *Ctx) {
 	runC07State(c, pi)
 	runC07Move(c, pi)
 	runC07Scalar(c, pi)
+	runC07RemoveIf(c, pi)
+	runC07FromRaw(c, pi)
 }
 
 func paramName(fn *ssa.Function, i int) string {
@@ -499,6 +501,51 @@ func runC07State(c *Ctx, pi *pdataInfo) {
 					}
 				})
 			}
+		}
+	}
+	// the same for wrappers assembled field by field (struct literal or `w := newW(); w.orig = …`)
+	for _, pk := range pi.pkgs {
+		for _, fn := range p.AllSrcFuncs(pk) {
+			allInstrs(fn, func(in ssa.Instruction) {
+				al, ok := in.(*ssa.Alloc)
+				if !ok {
+					return
+				}
+				W := namedOf(al.Type().(*types.Pointer).Elem())
+				if W == nil || !pi.wrappers[W] {
+					return
+				}
+				var origV, stateV ssa.Value
+				var at ssa.Instruction
+				for _, r := range *al.Referrers() {
+					fa, ok := r.(*ssa.FieldAddr)
+					if !ok {
+						continue
+					}
+					fname := derefStruct(al.Type()).Field(fa.Field).Name()
+					for _, rr := range *fa.Referrers() {
+						if st, ok := rr.(*ssa.Store); ok && st.Addr == ssa.Value(fa) {
+							if fname == "orig" {
+								origV, at = st.Val, st
+							} else if fname == "state" {
+								stateV = st.Val
+							}
+						}
+					}
+				}
+				if origV == nil {
+					return
+				}
+				or := pi.origRoot(origV, 0)
+				if or == nil || !pi.isWrapperType(or.Type()) {
+					return
+				}
+				n++
+				if stateV == nil || pi.stateRoot(stateV, 0) != or {
+					bad++
+					c.Bad(fmt.Sprintf("state of %s assembled in %s", W.Obj().Name(), fnName(fn)), p.Pos(at.Pos()), "the view's payload pointer comes from another wrapper but its state does not (fresh or foreign state): MarkReadOnly on the payload would not protect this view, and mutation through it would change read-only shared data")
+				}
+			})
 		}
 	}
 	if bad == 0 {
